@@ -142,6 +142,29 @@ theorem overflowing_deposits_change_nothing (h : Host) (cid : Nat) (ds : List (N
     · have := decideFund_total_le rfl hn; omega
   simp only [step, Rhp.decide, this, apply]
 
+/-- **the replenish deposits are fixed at the quote**: whenever a replenish handler credits, the list
+it hands to the contractor is exactly the list it quoted in its first response (computed from the
+balances at that moment), the revision both parties signed pays exactly the total of that list, and
+crediting that list adds exactly the quoted amounts to *whatever* the balances are by then — so
+nothing that happens between the quote and the renter's signature (a paid read or write on another
+stream, a funding through another contract) can make the amount credited differ from the amount
+signed for -/
+theorem replenish_credits_the_quote (h : Host) (pool : Bool) (cid : Nat) (accounts : List Nat) (target : Nat)
+    (chal : Sig) (second : Option Sig) (pool' : Bool) (cid' : Nat) (c : Contract) (ds : List (Nat × Nat))
+    (he : (decideReplenish h pool cid accounts target chal second).eff = .credit pool' cid' c ds) :
+    ds = replenishDeposits (if pool then poolBal h.pools else h.accounts) target accounts ∧
+    (decideReplenish h pool cid accounts target chal second).out.vals = ds.map (·.2) ∧
+    (∃ cs, h.contracts cid = some cs ∧ RevStep cs.c c (depositTotal ds)) ∧
+    (∀ (later : Nat → Nat) (a : Nat), creditAccounts later ds a = later a + depositTo a ds) ∧
+    (∀ (later : Nat → Option Nat) (a : Nat), poolBal (creditPools later ds) a = poolBal later a + depositTo a ds) := by
+  have hne : (decideReplenish h pool cid accounts target chal second).eff ≠ .none := by rw [he]; simp
+  obtain ⟨cs, b', rsig, hc, _, _, _, _, hb, hv, ha, h2⟩ := decideReplenish_eff rfl hne
+  rw [he] at h2
+  cases h2
+  refine ⟨rfl, decideReplenish_vals hne, ⟨cs, hc, revStep_of_paid (revisePlain_some hb).1 hv ha⟩, ?_, ?_⟩
+  · intro later a; exact creditAccounts_apply _ later a
+  · intro later a; exact creditPools_apply _ later a
+
 /-- what `RevStep` says, spelled out in the property's words -/
 theorem revStep_meaning {old new : Contract} {cost : Nat} (s : RevStep old new cost) :
     old.body.rev < new.body.rev ∧
